@@ -331,7 +331,7 @@ func (f *frame) pureCall(in *ssa.Call) {
 				}
 				r[m] = fmt.Sprintf("(%s (%s) %s)", q, strings.Join(decl, " "), bt)
 			}
-			if facts != "true" && x.collectFacts {
+			if facts != "true" && x.collectFacts && x.fcOpt("qfacts") == "on" {
 				// values loaded under the quantifier are well-typed for every value of the bound
 				// variable (every cell of a modelled array holds a well-typed value): a separate,
 				// closed assumption rather than a change of the clause itself
